@@ -272,11 +272,11 @@ class Codec(object):
             if not isinstance(doc, (list, tuple)) or len(doc) != 4 or doc[0] != 1:
                 raise ValueError('not a msgpack-rpc response: %r' % (doc,))
             doc = doc[3]
-            if c.ignore_wrappers or md['style'] in ('bare', 'out_bare'):
+            if c.ignore_wrappers or md['style'] in ('bare', 'out_bare', 'empty_out_bare'):
                 return self._unwrap_rpc(md, doc)
         if not rets:
             return []
-        if md['style'] in ('bare', 'out_bare'):
+        if md['style'] in ('bare', 'out_bare', 'empty_out_bare'):
             if not c.ignore_wrappers and 'ref' in rets[0] and isinstance(doc, dict) and len(doc) == 1:
                 # bare object under its message name
                 (k, inner), = doc.items()
@@ -299,7 +299,7 @@ class Codec(object):
         rets = md['returns']
         if not rets:
             return []
-        if md['style'] in ('bare', 'out_bare'):
+        if md['style'] in ('bare', 'out_bare', 'empty_out_bare'):
             return [self.dec(rets[0], doc)]
         return self._multi(md, doc)
 
